@@ -303,7 +303,8 @@ def solve1d_large(ctx, rng, idx):
     neq = {"euler1d": 3, "nozzle": 3, "shallowwater": 2}.get(mname, 1)
     n = -(-257 // neq) + int(rng.integers(0, 16)) if implicit else int(rng.integers(90, 400))      # implicit: just above 256 unknowns
     s = gen.scenario1d(rng, mname=mname, bc=bc, ncell=n, dkind=str(rng.choice(["smooth", "stream", "stream"])), mach_max=2.5, ratio=2.0,
-                       recons=["extrapol1", "extrapol1", "extrapol2", "muscl_minmod", "extrapol3"], meshkinds=["uni", "refined", "morphed"], warm=False)
+                       recons=["extrapol1", "extrapol1", "extrapol2", "muscl_minmod", "extrapol3"], meshkinds=["uni", "refined", "morphed"], warm=False,
+                       fluxes=gen.UPWIND_FLUXES if implicit else None)
     cfl = float(rng.uniform(0.2, 2.0)) if implicit else float(rng.uniform(0.05, 0.4))
     nstep = int(rng.integers(1, 4)) if implicit else int(rng.integers(2, 8))
     ctx.describe(integrator=iname, cfl=cfl, nstep=nstep, unknowns=s.model.neq * s.mesh.ncell, **{k: v for k, v in s.desc().items() if k != "prim"}, prim_head=[p[:4] for p in s.prim])
@@ -321,6 +322,14 @@ def solve1d_large(ctx, rng, idx):
         return
     I1 = _integral(s.mesh, fend, s.model.neq)
     A1 = [np.sum(s.mesh.vol() * np.abs(q)) for q in fend.data]
+    if implicit:
+        # a linearised implicit step at CFL > 1 with a limiter / an undamped scheme can leave the admissible set or blow up (density
+        # x340 in one step in a thorough-tier witness): the sqrt(eps) Jacobian of such a state says nothing about conservation
+        with probes.quiet():
+            dtend = np.asarray(s.disc.calc_timestep(fend, 1.0), float)
+        if not np.all(np.isfinite(dtend)) or any(a1 > 5.0 * a0 + 1e-300 for a0, a1 in zip(A0, A1) if a0 > 0):
+            ctx.skip("solve1d_large:implicit-run-left-the-admissible-set-or-blew-up")
+            return
     keep = range(s.model.neq) if s.bckind == "per" else {"euler": (0, 2), "shallowwater": (0,)}.get(s.model.equation, ())
     tol = TOL_IMPL * max(1.0, cfl) if implicit else TOL_EXPL
     for i in keep:
